@@ -189,6 +189,10 @@ func (x *interp) typ(tok string) any {
 		return dsl.ArrayOf(x.userType("T1"))
 	case "ArrnT1":
 		return dsl.ArrayOf("T1")
+	case "ArrT2":
+		return dsl.ArrayOf(x.userType("T2"))
+	case "ArrnT2":
+		return dsl.ArrayOf("T2")
 	case "ArrArrS":
 		return dsl.ArrayOf(dsl.ArrayOf(dsl.String))
 	case "ArrNil":
@@ -201,6 +205,10 @@ func (x *interp) typ(tok string) any {
 		return dsl.MapOf(dsl.Int, dsl.String)
 	case "MapST1":
 		return dsl.MapOf(dsl.String, x.userType("T1"))
+	case "MapSnT1":
+		return dsl.MapOf(dsl.String, "T1")
+	case "MapSnT2":
+		return dsl.MapOf(dsl.String, "T2")
 	case "MapSArrS":
 		return dsl.MapOf(dsl.String, dsl.ArrayOf(dsl.String))
 	case "MapT1S":
@@ -261,6 +269,8 @@ func val(tok string) any {
 		return []any{"x", "y"}
 	case "arrI":
 		return []int{1, 2}
+	case "bytes":
+		return []byte("x")
 	case "map":
 		return map[string]any{"a": "x"}
 	case "val":
@@ -300,7 +310,7 @@ func str(tok string) string {
 var (
 	attrNames = []string{"a", "b", "zz", "", "a:X-A", "zz:X-Z"}
 	attrTypes = []string{"-", "String", "Int", "Int32", "Int64", "UInt", "Float32", "Float64", "Boolean", "Bytes", "Any", "Empty", "ErrorResult", "T1", "T2", "R1", "R2",
-		"nT1", "nT2", "nR1", "nNoSuch", "ArrS", "ArrInt", "ArrT1", "ArrnT1", "ArrArrS", "ArrNil", "ArrFn", "MapSS", "MapIntS", "MapST1", "MapSArrS", "MapT1S", "MapMapKey", "MapNilV", "MapFn",
+		"nT1", "nT2", "nR1", "nNoSuch", "ArrS", "ArrInt", "ArrT1", "ArrnT1", "ArrT2", "ArrnT2", "ArrArrS", "ArrNil", "ArrFn", "MapSS", "MapIntS", "MapST1", "MapSnT1", "MapSnT2", "MapSArrS", "MapT1S", "MapMapKey", "MapNilV", "MapFn",
 		"CollR1", "CollR2", "CollnR1", "CollT1", "CollNil", "CollBad", "CollCollR1", "CollFn", "nil", "wrongInt", "wrongStruct"}
 	attrVars  = []string{"fn", "plain", "desc", "descfn", "nilfn", "many"}
 	fieldVars = []string{"fn", "plain", "desc", "descfn", "nilfn", "many", "badtag", "niltag"}
@@ -308,7 +318,7 @@ var (
 	fnOnly    = []string{"fn", "nilfn"}
 	fnsVars   = []string{"fn", "plain", "nilfn", "many"}
 	texts     = []string{"txt", "", "odd", "long"}
-	valToks   = []string{"s", "i", "f", "b", "u", "sn", "sbad", "nil", "arr", "arrI", "map", "val", "mapval", "arrval", "struct"}
+	valToks   = []string{"s", "i", "f", "b", "u", "sn", "sbad", "nil", "arr", "arrI", "bytes", "map", "val", "mapval", "arrval", "struct"}
 	paths     = []string{"/", "/x", "/x/{a}", "/x/{b}", "/{zz}", "/{a}/{a}", "/{*w}", "/x/{*a}", "", "//abs/{a}", "/{", "x", "/{a:A}", "/x/"}
 	codes     = []string{"-", "200", "201", "204", "301", "304", "400", "404", "500", "0", "5", "16", "-1", "99999", "wrong"}
 )
@@ -755,7 +765,7 @@ func init() {
 				dsl.Example(42, val(nd.T))
 			}
 		}},
-		"Enum": {none, []string{"s", "i", "f", "mixed", "none", "nil", "arr", "map", "dup", "mapval", "arrval"}, []string{"plain"}, func(x *interp, nd *Node) {
+		"Enum": {none, []string{"s", "i", "f", "mixed", "none", "nil", "arr", "bytes", "map", "dup", "mapval", "arrval"}, []string{"plain"}, func(x *interp, nd *Node) {
 			switch nd.T {
 			case "s":
 				dsl.Enum("x", "y")
@@ -783,7 +793,7 @@ func init() {
 		"ExclusiveMaximum": boundFn(dsl.ExclusiveMaximum),
 		"MinLength": {[]string{"1", "0", "-1", "5"}, none, []string{"plain"}, func(x *interp, nd *Node) { dsl.MinLength(atoi(nd.N)) }},
 		"MaxLength": {[]string{"1", "0", "-1", "5"}, none, []string{"plain"}, func(x *interp, nd *Node) { dsl.MaxLength(atoi(nd.N)) }},
-		"Meta": {[]string{"k", "", "struct:pkg:path", "struct:field:name", "struct:field:type", "struct:field:external", "struct:field:proto", "struct:name:proto", "struct:tag:json", "struct:error:name",
+		"Meta": {[]string{"k", "", "struct:pkg:path", "struct:field:name", "struct:field:type", "struct:field:external", "struct:field:proto", "struct:name:proto", "struct:tag:json", "struct:error:name", "struct:type:name",
 			"type:generate:force", "protoc:include", "openapi:generate", "openapi:summary", "openapi:operationId", "openapi:tag:x", "openapi:example", "openapi:json:schema",
 			"openapi:extension:x-api", "openapi:typename", "swagger:generate", "swagger:example", "swagger:extension:x-api", "swagger:tag:x", "view", "rpc:tag"},
 			[]string{"v", "-", "two", "false", "types", "json", "int", "empty"}, []string{"plain"}, func(x *interp, nd *Node) {
